@@ -1163,7 +1163,7 @@ def main():
     ]
     chk.trusted = ["differential correspondence on the real Enforcer (this run) is the only link between the hand-written "
                    "models of config.py / util.py / model.py / core_enforcer.py text handling and the code"]
-    chk.build()
+    chk.build(translators=["remcomments"])
     if chk.replay_file:
         return replay(chk)
     if chk.tier == "thorough":
